@@ -109,7 +109,7 @@ PROPS = {
     "C19": dict(level="proof", theorems=T("C19", "C19_scores", "C19_step", "C19_history"), gens=["C19"],
                 rule="generated graphs x flags x removal sequences until the first raise; non-trivial = history of "
                      ">= 2 returning calls"),
-    "C20": dict(level="translation_validation", theorems=T("C20"), gens=["C20"],
+    "C20": dict(level="translation_validation", theorems=T("C20", "C20_stateless", "C20_compositional", "C20_idempotent_observation"), gens=["C20"],
                 rule="random interleavings of all public calls on shared argument objects with bit-for-bit argument "
                      "snapshots, verbose on/off; non-trivial = history of >= 3 calls sharing an argument"),
 }
